@@ -672,19 +672,27 @@ func c15Whole(c *Ctx) {
 		}
 	})
 	c.Check(okLoop && okDouble, "R15.5", cp.String(), "grows-until-not-full", cp.Pos(), "the buffer is doubled and the stack re-captured as long as it came back full (a full buffer may be truncated)")
-	// pcs cut to numFrames
-	cut := 0
-	AllInstrs(cp, func(i ssa.Instruction) {
+	// pcs cut to the number of frames captured, on every path
+	var cuts []ssa.Instruction
+	InstrsDeep(cp, func(i ssa.Instruction) {
 		if st, ok := i.(*ssa.Store); ok && strings.HasSuffix(Desc(st.Addr), ".pcs") {
 			if sl, ok := st.Val.(*ssa.Slice); ok && sl.High != nil && sl.Low == nil {
 				h := Desc(sl.High)
-				if h == "φnumFrames" || strings.HasPrefix(h, "Callers(") {
-					cut++
+				if strings.HasPrefix(h, "φ") || strings.HasPrefix(h, "Callers(") {
+					cuts = append(cuts, i)
 				}
 			}
 		}
 	})
-	c.Check(cut == 2, "R15.5", cp.String(), "cut-to-count", cp.Pos(), "pcs is cut to exactly the number of frames captured on both depth paths")
+	isCut := func(i ssa.Instruction) bool {
+		for _, x := range cuts {
+			if x == i {
+				return true
+			}
+		}
+		return false
+	}
+	c.Check(len(cuts) >= 1 && !ExistsPath(cp, nil, IsReturn, isCut), "R15.5", cp.String(), "cut-to-count", cp.Pos(), "pcs is cut to exactly the number of frames captured on every path (%d cut site(s))", len(cuts))
 	fs := c.Method("go.uber.org/zap/internal/stacktrace", "Formatter", "FormatStack")
 	if c.Anchor("R15.5", "stacktrace.Formatter.FormatStack", fs != nil) {
 		var ff ssa.Instruction
